@@ -92,12 +92,19 @@ class TrendFitIntData(TrendFit):
     key = "C04:int:verde.trend:Trend.fit"
 
     def configs(self, tier):
-        return [{"degree": 1, "ckind": "f", "dkind": "i"}, {"degree": 2, "ckind": "i", "dkind": "i"}, {"degree": 1, "ckind": "i", "dkind": "f"}]
+        out = [{"degree": 1, "ckind": "f", "dkind": "i"}, {"degree": 2, "ckind": "i", "dkind": "i"}, {"degree": 1, "ckind": "i", "dkind": "f"}]
+        # MIXED dtypes: one coordinate integer, the other float (with integer or float data)
+        out += [{"degree": 1, "ckind": "if", "dkind": "i"}, {"degree": 2, "ckind": "fi", "dkind": "i"}, {"degree": 1, "ckind": "if", "dkind": "f"}]
+        return out
 
     def setup(self, B, cfg):
         est = verde.Trend.__new__(verde.Trend)
         est.degree = cfg["degree"]
-        coords = _coords(B, 1, 0, minsize=1, kind=cfg["ckind"])
+        if len(cfg["ckind"]) == 2:
+            n = B.dim("npts", 1)
+            coords = (B.array("easting", (n,), cfg["ckind"][0]), B.array("northing", (n,), cfg["ckind"][1]))
+        else:
+            coords = _coords(B, 1, 0, minsize=1, kind=cfg["ckind"])
         return (est, coords, B.array("data", coords[0].shape, cfg["dkind"])), dict(weights=None)
 
     samples = None
